@@ -180,3 +180,9 @@ pub fn __slice_next_back<'a>(s: &'a [u64]) -> (r: (Option<&'a u64>, &'a [u64]))
         Some(x) => s@.len() > 0 && *x == s@[s@.len() - 1] && r.1@ =~= s@.subrange(0, s@.len() - 1),
     }
 { unimplemented!() }
+
+//@ assume __usize_cmp : rule R16u: std `Ord::cmp` on usize is the numeric order
+#[verifier::external_body]
+pub fn __usize_cmp(a: usize, b: usize) -> (r: core::cmp::Ordering)
+    ensures r == (if a < b { core::cmp::Ordering::Less } else if a == b { core::cmp::Ordering::Equal } else { core::cmp::Ordering::Greater })
+{ unimplemented!() }
